@@ -1,3 +1,5 @@
+import re
+
 from arpeggio import EOF, Optional, PTNodeVisitor, visit_parse_tree
 from arpeggio import RegExMatch as _
 from arpeggio import ZeroOrMore as ArpeggioZeroOrMore
@@ -146,7 +148,9 @@ class RRELNavigation(RRELBase):
     def __repr__(self):
         if self.fixed_name is not None:
             assert not self.consume_name
-            return "'" + self.fixed_name + "'~" + self.name
+            # use the quote character the name can be written in (see string_value)
+            quote = "'" if re.fullmatch(r"((\\')|[^'])*", self.fixed_name) else '"'
+            return quote + self.fixed_name + quote + "~" + self.name
         else:
             return self.name if self.consume_name else "~" + self.name
 
